@@ -214,7 +214,7 @@ def r4(R):
 
 
 @rule('C06.R6', 'the oids changed by an undo (from undo and from the vote) '
-      'are what the undo adapter invalidates everywhere', min_instances=3)
+      'are what the undo adapter invalidates everywhere', props=['C02'], min_instances=3)
 def r6(R):
     cls = R.prog.cls(UNDOI)
     checks = [('undo', 'undo', True), ('tpc_vote', 'tpc_vote', False)]
@@ -531,7 +531,7 @@ def r9(R):
 @rule('C06.R10', 'an undo that fails leaves nothing in the transaction '
       'buffer: every raising exit of FileStorage.undo that follows a write '
       'of an undo record rewinds the buffer to where the undo found it',
-      props=['C05'], min_instances=1)
+      props=['C05', 'C01'], min_instances=1)
 def r10(R):
     cls = R.prog.cls(FS)
     f = R.method(cls, 'undo')
@@ -841,3 +841,41 @@ def r14(R):
         R.violation(v.node, v.message, g, v.path,
                     key='blob stored before the undo can no longer be '
                         'refused')
+
+
+# ------------------------------------------------------------------ C06.R15
+@rule('C06.R15', 'an undo enters its records in the temporary index only '
+      'once it has succeeded: _txn_undo_write itself does not touch '
+      'self._tindex (undo() rewinds the buffer of a refused undo -- entries '
+      'made meanwhile would stay and point into whatever is written next)',
+      props=['C09', 'C05'], min_instances=1)
+def r15(R):
+    cls = R.prog.cls(FS)
+    f = R.method(cls, '_txn_undo_write')
+    g, b, F = R.cfg(f, cls, max_depth=0)
+    R.instance('FileStorage._txn_undo_write')
+    for nid in g.reachable():
+        nd = g.nodes[nid]
+        for op in F.ops(nd):
+            if op.path is not None and len(op.path) >= 2 and \
+                    tuple(op.path[:2]) == ('self', '_tindex') and (
+                        op.kind in ('setitem', 'store', 'delitem', 'aug') or
+                        (op.kind == 'call' and op.path[-1] in (
+                            'update', 'setdefault', 'pop', 'clear',
+                            '__setitem__'))):
+                R.violation(
+                    nd, '_txn_undo_write changes self._tindex (`%s`) while '
+                    'the undo can still be refused: undo() rewinds the '
+                    'transaction buffer of a refused undo, the index '
+                    'entries stay -- when the caller goes on and commits, '
+                    'the running index maps an object to another object\'s '
+                    'record; close() saves that index and the next open '
+                    'accepts it' %
+                    ' '.join(ast.unparse(op.stmt).split())[:60],
+                    key='temporary index changed before the undo succeeded')
+                return
+    # undo() itself enters them after the helper returned
+    u = R.method(cls, 'undo')
+    R.require(any(isinstance(c, ast.Call) and dotted(c.func) ==
+                  ('self', '_tindex', 'update') for c in walk_local(u.node)),
+              'undo() no longer enters the undo records in self._tindex')
